@@ -23,7 +23,9 @@ extern "C" void harness(void) {
   getPluginRegistry().add("s", []() -> BasePlugin* { return new vfh::Scripted(); });
   vfw::add("", "", -1);
   for (int k = 0; k < H_NC; k++) vfw::add(kRel[k], kRel[k], 0);
-  int filter = (int)vf_nd(K_FILTER, 0, 1), delay = (int)vf_nd(K_DELAY, 0, 20);
+  // which candidate cgroups are live (exist, resp. carry the xattr tag when a filter is configured) at which tick is
+  // concrete per variant (H_LIVE bit t*H_NC+k): a symbolic liveness history makes every container loop symbolic.
+  const int filter = H_FILTER; int delay = (int)vf_nd(K_DELAY, 0, 20);
   vf_cfg_set(CFG_FILTER, 0, filter); vf_cfg_set(CFG_DELAY, 0, delay);
   std::vector<std::unique_ptr<DetectorGroup>> dgs;
   {
@@ -38,7 +40,8 @@ extern "C" void harness(void) {
   OomdContext ctx;
   for (int t = 0; t < H_T; t++) {
     for (int k = 0; k < H_NC; k++) {
-      int ex = (int)vf_nd(K_EXISTS + t * 8 + k, 0, 1), tag = (int)vf_nd(K_TAG + t * 8 + k, 0, 1);
+      const int live = (H_LIVE >> (t * H_NC + k)) & 1;
+      const int ex = filter ? 1 : live, tag = filter ? live : (int)vf_nd(K_TAG + t * 8 + k, 0, 1);
       vfw::Node& n = vfw::nodes[1 + k];
       if (!ex && n.exists) vfw::remove_node(1 + k);
       else if (ex && !n.exists) vfw::recreate_node(1 + k);
